@@ -1173,6 +1173,10 @@ func (env *SpecEnv) evalCall(x *SExpr) *Val {
 			// sentinel("pkg/path", "ErrName"): a package-level error variable of another package
 			pp := args[0].Name
 			if !strings.Contains(pp, ".") || !strings.HasPrefix(pp, "github.com") {
+				// a standard-library package (sentinel("io", "EOF")) is tried under its own path first
+				if v := env.pkgScopeLookup(pp, args[1].Name); v != nil {
+					return v
+				}
 				pp = modPath + "/" + pp
 			}
 			if v := env.pkgScopeLookup(pp, args[1].Name); v != nil {
